@@ -87,8 +87,9 @@ DONE = {
   'of the two problems correspond one to one, so the minimum RMSD is the same); under any strictly increasing renumbering of the residues (+k) contact '
   'atoms, pair map, residue extension and clash count are unchanged, residue pairs are mapped key by key and Fnat is unchanged; with hydrogens excluded '
   '(clash count, Fnat) the result is that of the structure without its hydrogen atoms, and row labels are immaterial (any strictly increasing relabelling), so '
-  'hydrogen records inserted anywhere change neither. PARTIAL: the RMSD values '
-  'under renumbering / added hydrogens, and permutations are decided by the metamorphic correspondence only. '
+  'hydrogen records inserted anywhere change neither; the interface / ligand zones of a renumbered reference are the old zones renumbered and the fast '
+  'i-RMSD / L-RMSD pipelines give the same value. PARTIAL: the SQL RMSD routes under renumbering, RMSD under added hydrogens, and permutations are decided by '
+  'the metamorphic correspondence only. '
   'Known finding F6 (permuted decoy + fast RMSD routes without enforcement). Print Assumptions: closed under the global context.'),
  'C12': ('§5.C12',
   'CAPRI cascade and DockQ formula are regenerated from the source by the translator on every run; theorems (total, equal to the '
